@@ -18,12 +18,13 @@ THEOREMS = [
     "SC.commitA_fields", "SC.rstep_kstep", "SC.serinv_init", "SC.serinv_rstep", "SC.astep_rstep",
     "SC.serializable_run", "SC.serializable_restricted", "SC.select_serial", "SC.dvinv_reachable",
     # no panic in the restricted fragment (changeset shapes it produces)
-    "SC.applyOps_insert_some", "SC.applyOps_dels_some", "SC.dvDels_nil", "SC.applyOps_compaction_some",
-    "SC.no_panic_partial",
+    # phase A never panics (since /repo 6efcfe7, every changeset, every snapshot)
+    "SC.applyOp_total", "SC.applyOps_total", "SC.commitA_never_panics", "SC.no_panic_partial",
     # refutations of the unrestricted statements, by evaluation of schedules taken from the
     # implementation
-    "SC.create_create_witness", "SC.drop_vs_compaction_panic_witness", "SC.drop_vs_insert_witness",
-    "SC.drop_dv_vs_compaction_witness",
+    "SC.create_create_witness", "SC.drop_vs_insert_witness", "SC.drop_drop_bound_panic_witness",
+    # regression inputs of the two defects fixed in /repo 6efcfe7
+    "SC.drop_vs_compaction_regression", "SC.drop_dv_vs_compaction_regression",
     "SC.no_panic_unrestricted_false",
 ]
 
